@@ -669,3 +669,76 @@ func c03dirtyLogSkipped(c *an.Ctx) {
 	}
 	f.Guarded(r, rets, "the loop over the logs is left only for an error other than ErrDirtyLog", an.AtomLike(`ErrDirtyLog`, false))
 }
+
+func init() {
+	old := All["C03"].Run
+	All["C03"].Run = func(c *an.Ctx) {
+		old(c)
+		c03targetLevelAboveEveryInput(c)
+	}
+	All["C03"].Rules += " R12"
+	addLevel("C03", "The target level of a full-compaction group is strictly above the level of every file in it, so the compacted file (named by sequence and level of the first input) never takes the name of an input that the replace step then deletes.")
+}
+
+// c03targetLevelAboveEveryInput — C03.R12.  The compacted file is named <seq of the first input>-
+// <toLevel>-…; the replace protocol renames it into place and then removes the inputs by name.  The
+// names are disjoint only because toLevel > level(input) for every input: `add` raises toLevel to
+// level+1 (unclamped), addLowLevelMode adds a file only under level < toLevel.
+func c03targetLevelAboveEveryInput(c *an.Ctx) {
+	const I = "engine/immutable"
+	r := c.Rule("C03.R12", "K-BOUNDS", I+":(*CompactGroupBuilder).add / addLowLevelMode — a file joins a group only with toLevel > its level")
+	upd := obj(r, I+":CompactGroup.UpdateLevel")
+	addM := obj(r, I+":CompactGroup.Add")
+	las := "LevelAndSequence"
+	if f := fn(r, I+":CompactGroupBuilder.add"); f != nil && upd != nil {
+		defs := localDefs(f)
+		calls := f.Find(an.MCall("UpdateLevel", upd))
+		r.AddSites(calls.Len())
+		if calls.Len() == 0 {
+			r.Fail(f.Name+": UpdateLevel", c.P.Pos(f.Body.Pos()), "add no longer raises the group's target level")
+		}
+		for _, s := range calls.List {
+			ce, _ := s.Node.(*ast.CallExpr)
+			if ce == nil {
+				ast.Inspect(s.Node, func(m ast.Node) bool {
+					if x, ok := m.(*ast.CallExpr); ok && ce == nil && an.Callee(f.Info, x) == upd {
+						ce = x
+					}
+					return true
+				})
+			}
+			ok := false
+			if ce != nil && len(ce.Args) == 1 {
+				if be, isBin := ast.Unparen(ce.Args[0]).(*ast.BinaryExpr); isBin && be.Op.String() == "+" {
+					for _, pair := range [][2]ast.Expr{{be.X, be.Y}, {be.Y, be.X}} {
+						id, isID := ast.Unparen(pair[0]).(*ast.Ident)
+						tv, hasTV := f.Info.Types[pair[1]]
+						if !isID || !hasTV || tv.Value == nil {
+							continue
+						}
+						d := defs[f.Info.ObjectOf(id)]
+						if len(d) != 1 || d[0] == nil {
+							continue
+						}
+						if dc, isCall := ast.Unparen(d[0]).(*ast.CallExpr); isCall {
+							if sel, isSel := dc.Fun.(*ast.SelectorExpr); isSel && sel.Sel.Name == las && tv.Value.String() != "0" {
+								ok = true
+							}
+						}
+					}
+				}
+			}
+			if !ok {
+				arg := "?"
+				if ce != nil && len(ce.Args) == 1 {
+					arg = types.ExprString(ce.Args[0])
+				}
+				r.Fail(f.Name+": target level not above the input", c.P.Pos(s.Node.Pos()), "UpdateLevel(%s): the argument is not <level of the added file> + 1 taken directly from LevelAndSequence(); a clamped or recomputed value can equal the level of the first input, and the compacted file then gets that input's name and is deleted with it", arg)
+			}
+		}
+	}
+	if f := fn(r, I+":CompactGroupBuilder.addLowLevelMode"); f != nil && addM != nil {
+		adds := f.Find(an.MCall("group.Add", addM))
+		f.Guarded(r, adds, "file added only below the target level", an.AtomLike(`^local\(lv\)<recv\.level$|^recv\.level>local\(lv\)$|<recv\.level$`, true))
+	}
+}
